@@ -271,6 +271,23 @@ def bounded(rep, tier):
                 except RecursionError: fails.append((label, 'RecursionError instead of the recursion warning'))
                 except Exception as e: fails.append((label, f'{type(e).__name__}: {e}'[:160]))
     finally: sys.setrecursionlimit(old)
+    # look-alike scalars and history: a str / int / tuple SUBCLASS instance (enum members included) that compares and hashes equal to a plain value seen
+    # EARLIER - by infer_hint itself or by a check that used the plain value as a hint - is still described by its own hint
+    import enum as _enum
+    class ModeS(str, _enum.Enum): SAFE = 'safe'
+    class ModeI(_enum.IntEnum): ONE = 1
+    class MyStr(str): pass
+    class MyTuple(tuple): pass
+    for label, prime, mk in (('str-enum member after the equal plain str', lambda: infer_hint('safe'), lambda: ModeS.SAFE), ('str subclass after a container holding the equal plain str', lambda: infer_hint({'safe': 1}), lambda: MyStr('safe')),
+                             ('str-enum member after a check against the forward reference of that name', lambda: _try(lambda: is_bearable(0, 'safe')), lambda: ModeS.SAFE),
+                             ('int-enum member after the equal int', lambda: infer_hint(1), lambda: ModeI.ONE), ('tuple subclass after the equal tuple', lambda: infer_hint((1, 'a')), lambda: MyTuple((1, 'a')))):
+        cases += 1
+        try:
+            with warnings.catch_warnings():
+                warnings.simplefilter('ignore')
+                prime(); o = mk(); h = infer_hint(o)
+                if is_bearable(o, h) is not True: fails.append((f'history: {label}', f'infer_hint -> {h!r}; is_bearable is False'))
+        except Exception as e: fails.append((f'history: {label}', f'{type(e).__name__}: {e}'[:200]))
     groups = {}
     for src, msg in fails: groups.setdefault(classify(src, msg), []).append((src, msg))
     for sig, items in sorted(groups.items()):
@@ -400,7 +417,12 @@ def sibling_sweep(rep, tier):
     rep.bounded.append(dict(kind='genuine collections.abc / builtin container instances carrying methods of sibling protocols of the REAL inference state machine (one, two, or a whole sibling key): is_bearable(obj, infer_hint(obj)); bounded stand-in, NOT counted as proved',
                             classes=cases, transitions=len(keys), failing=len(fails)))
 
+def _try(f):
+    try: return f()
+    except Exception: return None
+
 def classify(src, msg):
+    if src.startswith('history:'): return 'lookalike_after_equal_plain_value'
     if 'UserString' in src: return 'userstring'
     if 'CR' in src.replace('"', ' ').replace('[', ' ').replace(']', ' ').split() or src == 'CR' or 'CR}' in src: return 'enum_member'
     if 'OrderedDict(' in src and ('.keys()' in src or '.values()' in src): return 'odict_view'
